@@ -19,7 +19,37 @@ def obligations(tier):
         P = dict(o.params)
         P.pop("sched", None)
         obs.append(Ob(o.name, P, EQ, weight=o.weight, budget_s=o.budget_s, max_paths=o.max_paths))
+    # chained members inside a Hexital, also with the consumer registered BEFORE its source (its newest reading is then
+    # None when first shown - and must stay what it was shown as)
+    for order in ("source-first", "consumer-first"):
+        obs.append(Ob(f"hexital-chain/{order}/n=5", dict(n=5, order=order), EQ, fn="run_chain", weight=20, budget_s=600))
     return obs
+
+
+def chain_members(order):
+    src = [build("EMA", dict(period=2)), build("RSI", dict(period=2))]
+    consumers = [build("SMA", dict(period=2, input_value="EMA_2")), build("STDEV", dict(period=2, input_value="EMA_2", name_suffix="e")),
+                 build("TSI", dict(period=2, smooth_period=2, input_value="RSI_2"))]
+    return consumers + src if order == "consumer-first" else src + consumers
+
+
+def run_chain(ctx, P):
+    _, _, Candle, _, Hexital = lib()
+    n = P["n"]
+    cs = mk_candles(ctx, n)
+    for step in (1, 2):
+        src = clone(cs)
+        hx = Hexital("hx", [], chain_members(P["order"]))
+        shots = []
+        for pos in range(0, n, step):
+            part = src[pos:pos + step]
+            hx.append(part if len(part) > 1 else part[0])
+            shots.append(snap(hx.candles()))
+        final = shots[-1]
+        if step == 1:
+            ctx.observe("final", final)
+        for t, s in enumerate(shots[:-1]):
+            ctx.equal(f"chain closed-candles-final[step={step}]", s, final[:len(s)])
 
 
 def run(ctx, P):
